@@ -5,6 +5,9 @@ writes seeded/MATRIX.md. Arguments: seed ids or property ids to restrict the run
 Never run another check on /repo while this is running (a patch is applied)."""
 import json, os, subprocess, sys, re, time, glob
 V = '/verif'
+import os as _os
+VD = _os.environ.get('VDIR', V)   # verif tree whose engine/harness is run (a snapshot worktree lets work in /verif go on)
+RD = _os.environ.get('RDIR', RD)  # repository tree the patch is applied to (a scratch worktree leaves /repo alone)
 only = sys.argv[1:]
 for d in sorted(glob.glob(V + '/seeded/C*-*')):
     sid = os.path.basename(d)
@@ -12,20 +15,20 @@ for d in sorted(glob.glob(V + '/seeded/C*-*')):
     if only and sid not in only and pid not in only:
         continue
     meta = json.load(open(d + '/meta.json')) if os.path.exists(d + '/meta.json') else {'seed': sid, 'property': pid}
-    subprocess.run(['git', '-C', '/repo', 'checkout', '--', '.'])
-    ap = subprocess.run(['git', '-C', '/repo', 'apply', d + '/patch.diff'], capture_output=True, text=True)
+    subprocess.run(['git', '-C', RD, 'checkout', '--', '.'])
+    ap = subprocess.run(['git', '-C', RD, 'apply', d + '/patch.diff'], capture_output=True, text=True)
     res = {'applies': ap.returncode == 0}
     if ap.returncode == 0:
         t0 = time.time()
-        r = subprocess.run(['timeout', '1500', V + '/bin/vcheck', '--tier', 'quick', pid], capture_output=True, text=True, cwd=V)
+        r = subprocess.run(['timeout', '1500', VD + '/bin/vcheck', '-repo', RD, '--tier', 'quick', pid], capture_output=True, text=True, cwd=VD)
         out = r.stdout
         res['exit'] = r.returncode
         res['wall_s'] = round(time.time() - t0, 1)
         res['violation_lines'] = len([l for l in out.split('\n') if l.startswith('VIOLATION')])
         res['labels'] = sorted(set(re.findall(r'label=(\S+)', out)))[:8]
         res['summary'] = out.strip().split('\n')[-1][:300] if r.returncode in (0, 2) else ''
-    subprocess.run(['git', '-C', '/repo', 'checkout', '--', '.'])
-    subprocess.run(['git', '-C', '/repo', 'clean', '-fdq'])
+    subprocess.run(['git', '-C', RD, 'checkout', '--', '.'])
+    subprocess.run(['git', '-C', RD, 'clean', '-fdq'])
     meta['check_run'] = {'cmd': f'git -C /repo apply seeded/{sid}/patch.diff; bin/vcheck --tier quick {pid}; git -C /repo checkout -- .', **res}
     if meta.get('breaks_property_on_current_tree', True):
         meta['detected'] = res.get('exit') == 1
